@@ -5,7 +5,7 @@
    (inside, strictly_inside, subdivision, edge_neighbour, same_triangle_set, total_area, lattice_children, lattice_neighbours) is Model/C20Spec.v.
    HEIGHT_FACTOR is the universally quantified [h] ([T ROps] is [R]). *)
 From Coq Require Import ZArith List Bool Reals Lra.
-From PAV Require Import Base.Res Base.NumOps Model.C20 Model.C20Spec Model.C20Scale Proofs.C20 Proofs.C20Hist Proofs.C20Scale.
+From PAV Require Import Base.Res Base.NumOps Model.C20 Model.C20Spec Model.C20Scale Model.C20Rewire Proofs.C20 Proofs.C20Hist Proofs.C20Scale Proofs.C20Rewire.
 Import ListNotations.
 Local Open Scope R_scope.
 
@@ -160,6 +160,28 @@ Theorem C20_edit_slots : forall (vs : list rpt) (es : list (nat * rpt)) (i j : n
   /\ slot_after vs (es ++ [(j, p)]) j = p.
 Proof. intros vs es i j p. split; [exact (@slot_after_untouched ROps vs es i)|exact (@slot_after_last ROps vs es j p)]. Qed.
 
+(* second kind of history: the user re-wires triangles in place, indices[r] = (a, b, c), then reads.
+   a_rewires A es is the object after the writes es (in order).  The vertex array and the number of triangles are unchanged,
+   and triangle i is made of the vertices addressed by the LAST row written to position i, or by the original row if the
+   position was never written; if every written row addresses a vertex the object stays in range, so every statement of this
+   file applies to it. *)
+Theorem C20_read_after_rewires : forall (A : @atri ROps) (es : list (nat * idx3)),
+  rewires_in_range (fst A) es = true ->
+  snd (a_rewires A es) = snd A /\ length (fst (a_rewires A es)) = length (fst A)
+  /\ a_triangles (a_rewires A es)
+     = map (fun i => row_tri (snd A) (row_after (fst A) es i)) (seq 0 (length (fst A))).
+Proof. exact (@a_rewires_read ROps). Qed.
+Theorem C20_rewires_stay_in_range : forall (A : @atri ROps) (es : list (nat * idx3)),
+  idx_in_range A = true ->
+  forallb (fun e : nat * idx3 => Nat.ltb (i0 (snd e)) (length (snd A)) && Nat.ltb (i1 (snd e)) (length (snd A))
+                                 && Nat.ltb (i2 (snd e)) (length (snd A))) es = true ->
+  idx_in_range (a_rewires A es) = true.
+Proof. exact (@a_rewires_in_range ROps). Qed.
+Theorem C20_rewire_rows : forall (rows : list idx3) (es : list (nat * idx3)) (i j : nat) (p : idx3),
+  (forallb (fun e : nat * idx3 => negb (Nat.eqb (fst e) i)) es = true -> row_after rows es i = getrow rows i)
+  /\ row_after rows (es ++ [(j, p)]) j = p.
+Proof. intros rows es i j p. split; [exact (row_after_untouched rows es i)|exact (row_after_last rows es j p)]. Qed.
+
 (* ------------------------------------------------------------ selections; the two representations *)
 Theorem C20_array_for_indexes : forall (A : @atri ROps) (sel : list nat),
   idx_in_range A = true -> Forall (fun i => (i < length (fst A))%nat) sel ->
@@ -247,6 +269,16 @@ Example C20_edits_satisfiable :
   /\ a_triangles (a_edits A es) = [((0, 0), (8, 1), (1, 3)); ((8, 1), (1, 3), (2, 2))].
 Proof. cbv zeta. split; [reflexivity|]. split; reflexivity. Qed.
 
+(* a history of three row writes (position 0 written twice, the last write wins) on a two-triangle object *)
+Example C20_rewires_satisfiable :
+  let A : @atri ROps := ([(0, 1, 2); (1, 2, 3)]%nat, [(0, 0); (4, 0); (1, 3); (5, 3)]) in
+  let es : list (nat * idx3) := [(0, (3, 3, 0)); (1, (2, 1, 0)); (0, (3, 1, 0))]%nat in
+  rewires_in_range (fst A) es = true /\ idx_in_range A = true
+  /\ forallb (fun e : nat * idx3 => Nat.ltb (i0 (snd e)) (length (snd A)) && Nat.ltb (i1 (snd e)) (length (snd A))
+                                    && Nat.ltb (i2 (snd e)) (length (snd A))) es = true
+  /\ a_triangles (a_rewires A es) = [((5, 3), (4, 0), (0, 0)); ((1, 3), (4, 0), (0, 0))].
+Proof. cbv zeta. split; [reflexivity|]. split; [reflexivity|]. split; reflexivity. Qed.
+
 Print Assumptions C20_count_quadruples. Print Assumptions C20_up_sample_is_subdivision.
 Print Assumptions C20_subdivision_inside_parent. Print Assumptions C20_subdivision_covers_parent.
 Print Assumptions C20_subdivision_interiors_disjoint. Print Assumptions C20_subdivision_quarter_area.
@@ -270,4 +302,5 @@ Print Assumptions C20_array_neighborhood_rows_distinct. Print Assumptions C20_ar
 Print Assumptions C20_coordinate_neighborhood_cells_distinct. Print Assumptions C20_coordinate_up_sample_cells_distinct.
 Print Assumptions C20_lattice_children_distinct. Print Assumptions C20_lattice_child_has_unique_parent.
 Print Assumptions C20_read_after_edits. Print Assumptions C20_edit_slots.
+Print Assumptions C20_read_after_rewires. Print Assumptions C20_rewires_stay_in_range. Print Assumptions C20_rewire_rows.
 Print Assumptions C20_containment_scale_invariant. Print Assumptions C20_operations_scale_covariant.
